@@ -396,7 +396,10 @@ class Session:
         if form == 1:  # particle objects instead of names
             return [p for p in self.dg.resonances if str(p) in names]
         if form == 2:  # chain indices (an int selects that chain)
-            return sorted(set(i % self.nchains for i in rl))
+            idx = sorted(set(i % self.nchains for i in rl))
+            if sum(rl) % 2:  # indices that come out of numpy (np.arange / np.where) mixed with a name
+                return [names[0]] + [self.np.int64(i) for i in idx]
+            return idx
         return names
 
     def _chains(self, cl):
